@@ -238,3 +238,43 @@ Definition lib_format_row_ok (row : str * str * str) : bool :=
 
 Theorem lib_formats_ok : forallb lib_format_row_ok lib_formats = true /\ (9 <= length lib_formats)%nat.
 Proof. split; [vm_compute; reflexivity | vm_compute; repeat constructor]. Qed.
+
+(* ---- the derive prints through the format strings of macros/src/types/{enum,named,tuple}.rs -------------- *)
+Definition L (x : String.string) : str := lit x.
+Definition v (x : String.string) : tsty := TVar (lit x).
+Definition qh (x : String.string) : phead := quoted_head (lit x).
+
+(* the distinct format literals of the three files, as read from the source on this run *)
+Fixpoint dedup_str (l : list str) : list str :=
+  match l with [] => [] | x :: r => if existsb (str_eqb x) r then dedup_str r else x :: dedup_str r end.
+Definition literals_of (file : String.string) : list str :=
+  dedup_str (map snd (filter (fun p => str_eqb (fst p) (lit file)) macro_formats)).
+Definition same_set (a b : list str) : bool :=
+  forallb (fun x => existsb (str_eqb x) b) a && forallb (fun x => existsb (str_eqb x) a) b.
+
+(* enum.rs, named.rs, tuple.rs use exactly these format strings (inline arguments such as `{text}` normalised to `{}` by the
+   translator), and each produces the text the model prints for the construct it stands for *)
+Theorem macro_formats_ok :
+  same_set (literals_of "enum.rs") [L "({})"; L """{}"""; L "{{ ""{}"": {} }}"; L "{{ ""{}"": ""{}"" }}"; L "{{ ""{}"": ""{}"", ""{}"": {} }}";
+                                     L "{{ ""{}"": ""{}"" }} & {}"] = true /\
+  same_set (literals_of "named.rs") [L """{}"": ""{}"","; L "{{ {} }}"; L "{} & {}"; lit "
+{}"; L "{}{}: {},"; L "{}{}{}: {},"] = true /\
+  same_set (literals_of "tuple.rs") [L "[{}]"] = true /\
+  (* enum.rs *)
+  fmt_apply (L "({})") [L "U"] = print (TParen (v "U")) /\
+  fmt_apply (L """{}""") [L "N"] = print (TLit (L "N")) /\
+  fmt_apply (L "{{ ""{}"": {} }}") [L "N"; L "T"] = print (TObj OVariant [(qh "N", v "T")]) /\
+  fmt_apply (L "{{ ""{}"": ""{}"" }}") [L "t"; L "N"] = print (TObj OVariant [(qh "t", TLit (L "N"))]) /\
+  fmt_apply (L "{{ ""{}"": ""{}"", ""{}"": {} }}") [L "t"; L "N"; L "c"; L "T"] = print (TObj OVariant [(qh "t", TLit (L "N")); (qh "c", v "T")]) /\
+  fmt_apply (L "{{ ""{}"": ""{}"" }} & {}") [L "t"; L "N"; L "T"] = print (TInter [TObj OVariant [(qh "t", TLit (L "N"))]; v "T"]) /\
+  (* named.rs: the members between the braces, a member with documentation and `?`, the tag pseudo-member, operands joined *)
+  fmt_apply (L "{{ {} }}") [fmt_apply (L "{}{}{}: {},") [fmt_apply (lit "
+{}") [L "/** d */"]; L "a"; L "?"; L "T"]]
+    = print (TObj OStruct [({| p_docs := L "/** d */"; p_key := L "a"; p_text := L "a"; p_optional := true |}, v "T")]) /\
+  fmt_apply (L "{{ {} }}") [fmt_apply (L "{}{}: {},") [lit ""; L "a"; L "string"]]
+    = print (TObj OStruct [({| p_docs := []; p_key := L "a"; p_text := L "a"; p_optional := false |}, TRaw (L "string"))]) /\
+  fmt_apply (L "{{ {} }}") [fmt_apply (L """{}"": ""{}"",") [L "t"; L "N"]] = print (TObj OStruct [(qh "t", TLit (L "N"))]) /\
+  fmt_apply (L "{} & {}") [L "(A)"; L "(B)"] = print (TMerged (TInter [TParen (v "A"); TParen (v "B")])) /\
+  (* tuple.rs *)
+  fmt_apply (L "[{}]") [L "A, B"] = print (TTuple [v "A"; v "B"]).
+Proof. repeat split; vm_compute; reflexivity. Qed.
